@@ -3,6 +3,7 @@ from inspect import BoundArguments
 from inspect import Parameter
 from inspect import Signature
 from inspect import iscoroutinefunction
+from inspect import unwrap
 from itertools import chain
 from types import MethodType
 from typing import Any
@@ -15,6 +16,8 @@ def _make_key(method):
         bound = (len(method.args), tuple(sorted(method.keywords)))
         method = method.func
     method = method.fget if isinstance(method, property) else method
+    # A functools.wraps-style wrapper exposes the signature of what it wraps.
+    wrapped = unwrap(method)
     # The code object (not just the local variable names) identifies the parameter kinds
     # and whether the callable is a coroutine function.
     if isinstance(method, MethodType):
@@ -23,11 +26,14 @@ def _make_key(method):
                 method.__qualname__,
                 method.__self__.__class__.__name__,
                 method.__code__,
+                getattr(wrapped, "__code__", None),
                 bound,
             )
         )
     else:
-        return hash((method.__qualname__, method.__code__, bound))
+        return hash(
+            (method.__qualname__, method.__code__, getattr(wrapped, "__code__", None), bound)
+        )
 
 
 def signature_cache(user_function):
